@@ -121,7 +121,10 @@ def file_classes(rng=None):
     cls = {
         "clean": [h + "\nint\tmain(void)\n{\n\treturn (0);\n}\n"],
         "notice": [h + "\nint\tg_x;\n", h + "\nchar\t*g_s = \"a\\qb\";\n"],
-        "error": [h + "\nint\tmain()\n{\n}\n", "int\tmain(void)\n{\n\treturn (0);\n}\n", h + "\nint main(void) {return 0;}\n"],
+        "error": [h + "\nint\tmain()\n{\n}\n", "int\tmain(void)\n{\n\treturn (0);\n}\n", h + "\nint main(void) {return 0;}\n",
+                  # files whose ONLY Error-level diagnostics come from the lexer
+                  h + "\nint\tmain(void)\n{\n\treturn (10xyz);\n}\n", h + "\nint\tmain(void)\n{\n\treturn ('');\n}\n",
+                  h + "\nint\tmain(void)\n{\n\treturn (1.2.3 > 08);\n}\n"],
         "fatal": [h + "\n#foo\n", h + "\nint\tmain(void)\n{\n\treturn (0);\n}\n) )", "#include\n"],
     }
     if rng is not None:
@@ -246,9 +249,71 @@ void	ft_apply(int (*cmp)(void *, void *), void (*each)(void *), void **items)
 """
 
 
+# loops whose body is the lone `;` (top level and inside a block), an if / else if / else chain, `break ;`
+EXTRA_CONFORMING_BODY3 = """
+static int	scan(char *str, int n)
+{
+	int	i;
+
+	i = 0;
+	while (str[i] && str[i] != n)
+		i++;
+	while (str[i] == ' ' && i++ < n)
+		;
+	if (i > n)
+	{
+		while (n-- > 0 && str[n] != 'x')
+			;
+		i = n;
+	}
+	else if (i == n)
+		i = 0;
+	else
+		i = -1;
+	return (i);
+}
+
+int	ft_scan(char *str)
+{
+	int	k;
+
+	k = scan(str, 3);
+	while (k > 0)
+	{
+		k = scan(str + k, k);
+		if (k == 2)
+			break ;
+	}
+	return (k);
+}
+"""
+
+
 def extra_conforming():
     return [("ft_shift.c", header.header42("ft_shift.c") + EXTRA_CONFORMING_BODY),
-            ("ft_extra.c", header.header42("ft_extra.c") + EXTRA_CONFORMING_BODY2)]
+            ("ft_extra.c", header.header42("ft_extra.c") + EXTRA_CONFORMING_BODY2),
+            ("ft_scan.c", header.header42("ft_scan.c") + EXTRA_CONFORMING_BODY3)]
+
+
+def indent_edits():
+    """(name, text, code, line): every line of the function bodies of ft_scan.c with one tab less (TOO_FEW_TAB) and one
+    tab more (TOO_MANY_TAB) — statements, braces, `else`, the lone `;` of an empty loop, at every depth"""
+    name, src = extra_conforming()[2]
+    lines = src.split("\n")
+    out = []
+    for i, l in enumerate(lines):
+        if i > 11 and l.startswith("\t"):
+            v = list(lines); v[i] = l[1:]
+            out.append((name, "\n".join(v), "TOO_FEW_TAB", i + 1))
+            v = list(lines); v[i] = "\t" + l
+            out.append((name, "\n".join(v), "TOO_MANY_TAB", i + 1))
+    return out
+
+
+# other names a source file may have: dots, a leading underscore, capitals, a hyphen in the stem
+def name_variants(name):
+    stem, ext = name.rsplit(".", 1)
+    return [f"{stem}.utils.{ext}", f"lib.{stem}.{ext}", f"_{stem}.{ext}", f"{stem}-2.{ext}", f"{stem.upper()}.{ext}", f"{stem}.h.{ext}" if ext == "c" else f"{stem}.c.{ext}"]
 
 
 def extra_violating():
@@ -271,4 +336,4 @@ def extra_violating():
         if l.startswith("\tif (x > 0") or l.startswith("\twhile (n--"):
             v = list(lines); v[i] = l + " "
             out.append((name, "\n".join(v), "SPC_BEFORE_NL", i + 1))
-    return out
+    return out + indent_edits()
